@@ -295,7 +295,22 @@ func rsBoundary() []*big.Int {
 		new(big.Int).Sub(p2(247), one), p2(247), new(big.Int).Sub(p2(248), one), p2(248), new(big.Int).Sub(p2(255), one), p2(255),
 		ref.HalfN, new(big.Int).Add(ref.HalfN, one), new(big.Int).Sub(ref.N, one), ref.N, new(big.Int).Add(ref.N, one), ref.P,
 		new(big.Int).Sub(ref.R256, one), ref.R256, new(big.Int).Add(ref.R256, one),
+		// canonical non-zero scalars whose STORED (Montgomery) limbs have half-word structure or a single low bit: a
+		// zero test that folds 64 bits to 32, or skips a limb, takes them for zero and the parsers reject them
+		storedAs(ref.N, [4]uint64{1<<33 - 1, 0, 0, 0}), storedAs(ref.N, [4]uint64{1 << 32, 0, 1<<32 - 1, 0}),
+		storedAs(ref.N, [4]uint64{0, 0, 0, 0x8000000080000000}), storedAs(ref.N, [4]uint64{0, 0, 0, 1}),
 	}
+}
+
+// storedAs returns the value below m whose stored representation (value * 2^256 mod m) has the given limbs.
+func storedAs(m *big.Int, l [4]uint64) *big.Int {
+	t := new(big.Int)
+	for i := 3; i >= 0; i-- {
+		t.Lsh(t, 64)
+		t.Or(t, new(big.Int).SetUint64(l[i]))
+	}
+	rinv := new(big.Int).ModInverse(ref.R256, m)
+	return t.Mul(t, rinv).Mod(t, m)
 }
 
 func derCorpus() [][]byte {
